@@ -121,11 +121,11 @@ def ensure(config='default', repo=REPO, verbose=True):
         if verbose:
             print('[facts] extracting (%s) for source hash %s ...' % (config, h), file=sys.stderr, flush=True)
         _extract(outdir, config, repo)
-        # keep at most 6 fact sets per config
+        # keep at most 14 fact sets per config
         fdir = os.path.join(CACHE, 'facts')
         olds = sorted((d for d in os.listdir(fdir) if d.startswith(config + '-') and '.tmp' not in d),
                       key=lambda d: os.path.getmtime(os.path.join(fdir, d)))
-        for d in olds[:-6]:
+        for d in olds[:-14]:
             shutil.rmtree(os.path.join(fdir, d), ignore_errors=True)
     return outdir
 
